@@ -80,9 +80,15 @@ def pipeline(ctx, want):
     # GEN
     per = 60 if ctx.quick() else 1200
     scripts = []
+    from concurrent.futures import ThreadPoolExecutor
+
+    def sim(k):
+        cfg = SIMS[k][0]
+        return ctx.tlc("Tracker.tla", cfg, count=False, workers=1, timeout=1500,
+                       simulate="file=beh%d,num=%d" % (k, per), depth=60, seed=ctx.seed * 31 + k)
+    with ThreadPoolExecutor(max_workers=len(SIMS)) as ex:
+        list(ex.map(sim, range(len(SIMS))))
     for k, (cfg, K, Q, cids) in enumerate(SIMS):
-        r = ctx.tlc("Tracker.tla", cfg, count=False, workers=1, timeout=1500,
-                    simulate="file=beh%d,num=%d" % (k, per), depth=60, seed=ctx.seed * 31 + k)
         for n, beh in enumerate(tla.read_behaviours(ctx.specdir(), "beh%d" % k)):
             sc = to_script(beh, "s%d-%d" % (k, n), K, Q, cids)
             if sc:
